@@ -179,8 +179,9 @@ func structTag(baseNameTag string, visibility Visibility, omitEmpty bool) reflec
 func parse(r []Field, input interface{}, target reflect.Type, parentFullName, parentGoName, parentTagName string, parentVisibility Visibility, nbPublic, nbSecret *int) ([]Field, error) {
 	tValue := reflect.ValueOf(input)
 
-	// get pointed value if needed
-	if tValue.Kind() == reflect.Ptr {
+	// get pointed value if needed; the input is the address of a field, which
+	// may itself be a (non nil) pointer to a struct
+	for tValue.Kind() == reflect.Ptr && !tValue.IsNil() {
 		tValue = tValue.Elem()
 	}
 
